@@ -31,5 +31,6 @@ def run(project, rep):
     rep.run(S.s_r6_constraints, schema, rep)
     rep.run(S.s_r7_shadowing, schema, rep)
     rep.run(S.s_r8_buildable, schema, rep)
+    rep.run(S.s_r9_own_descriptor, schema, rep)
     from .. import rules_values as V
     rep.run(V.v_r8_token_tables, project, rep)
